@@ -11,6 +11,7 @@ from .s3 import SimS3
 from .streams import (
     DuckSeekableDest,
     DuckSeekableSource,
+    WrappedFileSource,
     NonSeekableDest,
     NonSeekableSource,
     SeekableDest,
@@ -484,7 +485,8 @@ class World:
         subs = spec.get('subs')
         if subs is None:
             subs = [{}]
-        return [_RecordingSubscriber(self, tidx, i, s) for i, s in enumerate(subs)]
+        return [(_RecordingSubscriber.Adapter if s.get('adapter') else _RecordingSubscriber)(
+            self, tidx, i, s) for i, s in enumerate(subs)]
 
     def _prepare_transfer(self, spec):
         idx = len(self.transfers)
@@ -508,6 +510,8 @@ class World:
                 t['fileobj'] = t['path']
             elif spec['src'] == 'seekable':
                 cls = DuckSeekableSource if spec.get('duck') else SeekableSource
+                if spec.get('wrapped'):
+                    cls = WrappedFileSource
                 # (short reads only where the body is streamed straight from
                 # the user's object - a single PutObject; the part slicer of the
                 # multipart path relies on read(n) returning n bytes, as file
